@@ -25,6 +25,18 @@ GENERIC STREAM (implementation-only oracle; the FieldConv model has no type para
 {no converter, K} x {required, default}, structured through a parametrisation `GB[a, b]`.  The T of the property is
 the SUBSTITUTED field type: the oracle is the same three-way rule with `hook_T := conv.structure(raw, shape(a))`.
 (`find_structure_handler` receives both the attribute and the substituted type.)
+
+WRAPPER / ROUTE STREAM (implementation-only oracle): one-to-three-field classes whose field types are WRAPPERS --
+NewType, NewType of NewType, Annotated, Annotated[NewType], a PEP 695 alias, Optional, list -- around a supported type
+(int, str, an attrs class) or around a class without any hook, with / without K; the class hook is obtained by every
+public ROUTE: converter dispatch, `make_dict_structure_fn(cl, conv)`, `make_dict_structure_fn_from_attrs(fields, cl,
+conv)` (called directly, or registered on the converter and used through `conv.structure`), each with
+`_cattrs_prefer_attrib_converters` left at its default ("from_converter"), True and False; on converters constructed
+directly and on COPIES whose flags were overridden in both directions (`Converter(prefer=not p).copy(prefer_attrib_
+converters=p)`).  The effective flag is the explicit argument, else the converter's.  "A hook can be found for T" is
+read as in the main stream (the lookup for T itself succeeds) from a by-construction table that is checked against
+the implementation's lookup; combinations inside the recorded F36 region (a hook that exists and fails inside:
+Optional / list of an unsupported class; NewType of one on BaseConverter) are not generated.
 """
 from __future__ import annotations
 
@@ -699,6 +711,163 @@ def run_generic(chk, n_classes, stats):
         prune_linecache()
 
 
+# ------------------------------------------------------------------ wrappers x routes x copies (implementation-only oracle)
+W_NT_UNSUP = typing.NewType("WNtUnsup", NoHook)
+W_NT_INT = typing.NewType("WNtInt", int)
+W_NT_GARG = typing.NewType("WNtGArg", GArg)
+W_NT_NT_INT = typing.NewType("WNtNtInt", W_NT_INT)
+W_NT_NT_UNSUP = typing.NewType("WNtNtUnsup", W_NT_UNSUP)
+exec("type WAlUnsup = NoHook\ntype WAlInt = int\ntype WAlGArg = GArg\ntype WAlNt = W_NT_UNSUP", globals())
+
+# name -> (type, base kind, wrapper kinds used)
+W_TYPES = {
+    "int": (int, "int", ()), "GArg": (GArg, "GArg", ()), "unsup": (NoHook, "unsup", ()),
+    "NewType(int)": (W_NT_INT, "int", ("newtype",)), "NewType(GArg)": (W_NT_GARG, "GArg", ("newtype",)),
+    "NewType(unsup)": (W_NT_UNSUP, "unsup", ("newtype",)),
+    "NewType(NewType(int))": (W_NT_NT_INT, "int", ("newtype",)), "NewType(NewType(unsup))": (W_NT_NT_UNSUP, "unsup", ("newtype",)),
+    "Annotated[int]": (typing.Annotated[int, "m"], "int", ("annotated",)),
+    "Annotated[GArg]": (typing.Annotated[GArg, "m"], "GArg", ("annotated",)),
+    "Annotated[unsup]": (typing.Annotated[NoHook, "m"], "unsup", ("annotated",)),
+    "Annotated[NewType(int)]": (typing.Annotated[W_NT_INT, "m"], "int", ("annotated", "newtype")),
+    "Annotated[NewType(unsup)]": (typing.Annotated[W_NT_UNSUP, "m"], "unsup", ("annotated", "newtype")),
+    "alias=int": (WAlInt, "int", ("alias",)), "alias=GArg": (WAlGArg, "GArg", ("alias",)),  # noqa: F821
+    "alias=unsup": (WAlUnsup, "unsup", ("alias",)), "alias=NewType(unsup)": (WAlNt, "unsup", ("alias", "newtype")),  # noqa: F821
+    "Optional[int]": (Optional[int], "int", ("optional",)), "Optional[NewType(int)]": (Optional[W_NT_INT], "int", ("optional", "newtype")),
+    "list[int]": (list[int], "int", ("list",)), "list[NewType(GArg)]": (list[W_NT_GARG], "GArg", ("list", "newtype")),
+}
+W_RAWS = {"int": ["2", 3, "zz", None, "boom"], "GArg": [{"x": "4"}, {"x": 1}, {}, 7], "unsup": ["2", 7, None, "boom", {"x": 1}]}
+W_ROUTES = [("dispatch", None)] + [(r, a) for r in ("fn", "fn_from_attrs", "registered") for a in ("default", True, False)]
+
+
+def w_has_hook(gen_conv, tname):
+    """'the lookup for T itself finds a hook' -- by construction (checked against the implementation by `w_check_table`)
+    -> True | False | None (= not generated: F36 region / no Annotated support in BaseConverter)"""
+    _, base, wraps = W_TYPES[tname]
+    if not gen_conv and "annotated" in wraps:
+        return None
+    if base != "unsup":
+        return True
+    if not wraps:
+        return False
+    if not gen_conv and "newtype" in wraps:
+        return None       # BaseConverter's NewType hook is late-binding: it exists and fails inside (F36 region)
+    return False          # Converter's NewType / Annotated / alias factories (and BaseConverter's alias factory) look T's base up eagerly
+
+
+def w_raw(rng, tname):
+    _, base, wraps = W_TYPES[tname]
+    x = rng.choice(W_RAWS[base])
+    if "list" in wraps:
+        return [rng.choice(W_RAWS[base]) for _ in range(rng.randint(0, 2))]
+    if "optional" in wraps and rng.random() < 0.3:
+        return None
+    return x
+
+
+def w_converter(c, via):
+    """a converter of configuration c: constructed directly, or a COPY whose flags were overridden (both ways)"""
+    if via == "direct":
+        return make_converter(c)
+    src = make_converter(dict(c, prefer=not c["prefer"], detailed=not c["detailed"]))
+    return src.copy(prefer_attrib_converters=c["prefer"], detailed_validation=c["detailed"])
+
+
+def w_structure(conv, cl, route, flagarg, payload):
+    from cattrs.gen import make_dict_structure_fn, make_dict_structure_fn_from_attrs
+    if route == "dispatch":
+        return conv.structure(payload, cl)
+    kw = {} if flagarg == "default" else {"_cattrs_prefer_attrib_converters": flagarg}
+    if route == "fn":
+        return make_dict_structure_fn(cl, conv, **kw)(payload, cl)
+    hook = make_dict_structure_fn_from_attrs(attrs.fields(cl), cl, conv, **kw)
+    if route == "fn_from_attrs":
+        return hook(payload, cl)
+    conv.register_structure_hook(cl, hook)
+    return conv.structure(payload, cl)
+
+
+def w_check_table(chk, stats):
+    for gen_conv in (True, False):
+        conv = make_converter({"gen": gen_conv, "tuple": False, "detailed": True, "prefer": False, "legacy": False})
+        for tname, (t, _, _) in W_TYPES.items():
+            want = w_has_hook(gen_conv, tname)
+            if want is None:
+                continue
+            got = lookup_says(conv, t)
+            chk.note("wrapped:lookup:" + got)
+            if got != ("hook" if want else "nohook"):
+                stats["oracle_fail"] += 1
+                chk.violation(f"C20 oracle precondition (wrapper stream): hook lookup for {tname} on a "
+                              f"{'Converter' if gen_conv else 'BaseConverter'} answers {got}, expected {'hook' if want else 'nohook'}",
+                              {"op": "wrapped-kind", "type": tname, "gen": gen_conv})
+
+
+def run_wrapped(chk, n_classes, stats):
+    r = chk.rng
+    w_check_table(chk, stats)
+    cfgs = [c for c in all_cfgs(legacy=(False,)) if not c["tuple"]]
+    names = sorted(W_TYPES)
+    for ci in range(n_classes):
+        n = r.choice([1, 1, 2, 3])
+        # every wrapper type is the first field of some class, with and without K
+        fields = [{"name": nm, "ty": names[(ci // 2) % len(names)] if i == 0 else r.choice(names),
+                   "conv": ((r.choice(KKINDS) if r.random() < 0.3 else "tag", "K" + nm)
+                            if (ci % 2 == 0 if i == 0 else r.random() < 0.6) else None)}
+                  for i, nm in enumerate(NAMES[:n])]
+        cl = attrs.make_class("WR%d" % next(_uid), {
+            f["name"]: attrs.field(type=W_TYPES[f["ty"]][0], **({"converter": mk_conv(*f["conv"])} if f["conv"] else {}))
+            for f in fields})
+        desc = " ; ".join("%s: %s%s" % (f["name"], f["ty"], " conv=" + f["conv"][0] if f["conv"] else "") for f in fields)
+        for _ in range(2):
+            raws = [w_raw(r, f["ty"]) for f in fields]
+            payload = {f["name"]: raw for f, raw in zip(fields, raws)}
+            for c in cfgs:
+                hh = [w_has_hook(c["gen"], f["ty"]) for f in fields]
+                if any(h is None for h in hh):
+                    chk.note("wrapped:not-generated(F36-region/BaseConverter-Annotated)")
+                    continue
+                for via in ("direct", "copy"):
+                    for route, flagarg in ([("dispatch", None)] + r.sample(W_ROUTES[1:], 3)):
+                        eff = c["prefer"] if flagarg in (None, "default") else flagarg
+                        conv = w_converter(c, via)
+                        try:
+                            inst = w_structure(conv, cl, route, flagarg, payload)
+                            oi = "ok " + " ".join("%s=%s" % (f["name"], g_canon(getattr(inst, f["name"]))) for f in fields)
+                        except Exception:  # noqa: BLE001
+                            oi = "err"
+                        per = []
+                        ref = w_converter(c, "direct")   # hook_T(raw) on a converter of the same configuration
+                        for f, raw, h in zip(fields, raws, hh):
+                            K = mk_conv(*f["conv"]) if f["conv"] else None
+                            try:
+                                if K is not None:
+                                    per.append(K(raw) if (eff or not h) else K(ref.structure(raw, W_TYPES[f["ty"]][0])))
+                                elif h:
+                                    per.append(ref.structure(raw, W_TYPES[f["ty"]][0]))
+                                else:
+                                    per.append(ERR)
+                            except Exception:  # noqa: BLE001
+                                per.append(ERR)
+                        oe = "err" if any(x is ERR for x in per) else \
+                            "ok " + " ".join("%s=%s" % (f["name"], g_canon(x)) for f, x in zip(fields, per))
+                        how = f"{cfg_name(c)} via={via} route={route}" + ("" if flagarg is None else f"(_cattrs_prefer_attrib_converters={flagarg})")
+                        chk.count("wrapped|" + how + "|" + desc + "|" + repr(payload), nontrivial=any(f["conv"] for f in fields),
+                                  sample={"cfg": how, "class": desc, "payload": repr(payload), "impl": oi[:200]})
+                        chk.note("wrapped:route:" + route + ("" if flagarg is None else ":" + str(flagarg)), "wrapped:via:" + via,
+                                 "wrapped:outcome:" + oi[:2])
+                        for f in fields:
+                            chk.note("wrapped:cell:%s/%s" % (f["ty"], "K" if f["conv"] else "noK"))
+                        stats["wrapped"] += 1
+                        if oi != oe:
+                            stats["oracle_fail"] += 1
+                            chk.violation(
+                                f"C20 oracle (wrapper/route stream): structuring {payload!r} as class({desc}) gives {oi[:300]}, the documented "
+                                f"rule (effective prefer_attrib_converters={eff}) gives {oe[:300]} [{how}]",
+                                {"op": "wrapped-oracle", "cfg": c, "via": via, "route": route, "flagarg": flagarg, "fields": fields,
+                                 "payload": repr(payload), "impl": oi, "expected": oe})
+        prune_linecache()
+
+
 def run(chk: framework.Check):
     drv = lean.Driver()
     # nested world classes: no self-referential classes, and no identity field converters (`idconv`): inside a hook
@@ -706,8 +875,9 @@ def run(chk: framework.Check):
     # top-level class, whose field types are the T of the property
     G = gen.Gen(chk.rng, recursive=False)
     stats = {"oracle_fail": 0, "corr_fail": [], "corr_fail_with_oracle_fail": 0, "in_scope": 0, "out_of_scope": 0,
-             "kinds_seen": set(), "generic": 0}
+             "kinds_seen": set(), "generic": 0, "wrapped": 0}
     run_generic(chk, 60 if chk.tier == "quick" else 600, stats)
+    run_wrapped(chk, 44 if chk.tier == "quick" else 440, stats)
     n_worlds, per_world = (60, 10) if chk.tier == "quick" else (600, 12)
     made = 0
     attempts = 0
@@ -745,14 +915,15 @@ def run(chk: framework.Check):
     chk.extra["model_scope"] = {"cases_in_theorem_scope(NoLazyEscape&NoDeepSHNF)": stats["in_scope"],
                                 "cases_outside(F35/F36 regions, model still compared)": stats["out_of_scope"]}
     chk.extra["generic_stream(implementation-only oracle)"] = stats["generic"]
+    chk.extra["wrapper_route_stream(implementation-only oracle)"] = stats["wrapped"]
     chk.extra["correspondence_mismatches"] = len(stats["corr_fail"]) + stats["corr_fail_with_oracle_fail"]
     chk.extra["oracle_failures(incl. recognised findings)"] = stats["oracle_fail"]
     drv.close()
 
 
 def replay(case):
-    if case.get("op") == "generic-oracle":
-        print("generic class case (implementation-only stream):", case)
+    if case.get("op") in ("generic-oracle", "wrapped-oracle", "wrapped-kind"):
+        print("implementation-only stream case:", case)
         return 1
     drv = lean.Driver()
     w = terms.world_from_json(case["world"])
